@@ -204,6 +204,23 @@ def finish(ctx, mod):
     return 1 if new else 0
 
 
+def replay_regressions(ctx, mod):
+    """seconds-long replay tier: every saved case of a defect that was found
+    and repaired (regress/<id>/*.json) is re-executed without Hypothesis; if a
+    defect returns it is reported under its bucket like any new violation"""
+    d = os.path.join(VERIF, 'regress', ctx.pid)
+    if not os.path.isdir(d) or not hasattr(mod, 'replay'):
+        return
+    n = 0
+    for fn in sorted(os.listdir(d)):
+        if fn.endswith('.json'):
+            with open(os.path.join(d, fn)) as f:
+                rec = json.load(f)
+            mod.replay(ctx, rec['case'])
+            n += 1
+    ctx.extra['regression_replays'] = n
+
+
 def main(mod, argv=None):
     import argparse
     ap = argparse.ArgumentParser()
@@ -227,6 +244,7 @@ def main(mod, argv=None):
                 return 1
             print(f'{mod.PROPERTY}: replay {args.replay} no longer violates')
             return 0
+        replay_regressions(ctx, mod)
         mod.run(ctx)
         return finish(ctx, mod)
     except SystemExit:
